@@ -67,7 +67,7 @@ type config struct {
 	Delta  uint32 // now - offset
 }
 
-func plan(tier string, seed int64) []run.Batch {
+func planBase(tier string, seed int64) []run.Batch {
 	deltas := []uint32{0, 1, 431, 432, 433, 2015, 2016, 2017, 3199, 3200, 3599, 3600}
 	var bs []run.Batch
 	nb, rounds := 8, 1
@@ -729,7 +729,7 @@ func (w *world) queuedAcrossClockChange() {
 
 // ---------------------------------------------------------------- child
 
-func child(b run.Batch, r *ev.Result) {
+func childBase(b run.Batch, r *ev.Result) {
 	if b.Kind == "scale" {
 		scaleRound(b, r, b.Seed)
 		return
